@@ -17,6 +17,7 @@ FAMILIES = {
     "debug": ("MC_Debug", None),
     "literals": ("MC_Literals", None),
     "names": ("MC_Names", None),
+    "jets": ("MC_Jets", None),
 }
 
 
@@ -55,6 +56,8 @@ def issue_property(case, issue, all_issues):
     at, what = issue.get("at"), issue.get("what")
     if case.get("tag") == "names" and (at in ("new", "alt", "instantiate") or what == "verdict"):
         return "C17"
+    if case.get("tag") == "jet" and (at in ("new", "instantiate", "commit") or what == "verdict"):
+        return "C13"
     if at == "roundtrip":
         return "C16"
     if at == "new":
